@@ -31,7 +31,7 @@ fn plan(tier: Tier) -> Plan {
             exhaustive: false,
         },
         Tier::Thorough => Plan {
-            cases: 500_000,
+            cases: 2_500_000,
             time_cap_s: 360,
             case_timeout_s: 20,
             exhaustive: false,
